@@ -204,7 +204,14 @@ def classify(x, v):
             break
     if not v["ifaces_ok"]:
         stage_listed = "stage-root" in obs["ifaces"] and [i for i in obs["ifaces"] if i != "stage-root"] == ["eth0"]
-        out.append(({"kind": "stage-root-is-an-interface" if stage_listed else "interfaces", "what": "interface-listing"}, "interfaces"))
+        if stage_listed:
+            kind = "stage-root-is-an-interface"
+        elif obs["ifaces"] == ["eth0"] and any(v["backup_is_a_day"]):
+            # the listing is right; the query over all interfaces fails on the left-over backup directory
+            kind = "backup-is-a-day"
+        else:
+            kind = "interfaces"
+        out.append(({"kind": kind, "what": "interface-listing"}, "interfaces"))
     if not v["remerge_ok"]:
         kind = "backup-is-a-day" if any(v["backup_is_a_day"]) else ("stage-root-is-an-interface" if v["stage_root"] and False else "remerge")
         out.append(({"kind": kind, "what": "later-merge"}, "later merge"))
